@@ -63,6 +63,21 @@ type Contract struct {
 	PureFields map[string]bool
 	CallbackMods map[string][]string // callback field -> designators it may modify
 	Reveal     map[string]bool // opaque ghost functions whose definition this function's proof may use
+	// Implements: "Iface.Method" — the method is verified against that interface method's (otherwise assumed)
+	// contract as well: its requires are added to this contract's, its ensures become obligations
+	// (conform-<label>) and its modifies are added to the frame.
+	Implements string
+	// GhostSets: ghost assignments executed at the function's exit, before the postconditions are checked
+	// (`ghostset G_f(x) := e [when c]`): the way an implementation maintains the ghost view its interface is
+	// specified with.
+	GhostSets []*GhostSet
+}
+
+// GhostSet is one `ghostset target := value [when cond]` clause.
+type GhostSet struct {
+	Target string
+	Value  *Clause
+	When   *Clause // nil = always
 }
 
 // GhostDecl is Go source to be added to the package's ghost file.
@@ -90,7 +105,7 @@ type MemoDecl struct {
 	Line              string
 }
 
-var clauseKW = map[string]bool{"ints": true, "safety": true, "requires": true, "assume": true, "ensures": true, "aux": true, "modifies": true,
+var clauseKW = map[string]bool{"implements": true, "ghostset": true, "ints": true, "safety": true, "requires": true, "assume": true, "ensures": true, "aux": true, "modifies": true,
 	"loop": true, "call": true, "callback": true, "reveal": true, "opaque": true, "trusted": true, "inline": true, "pure": true, "float": true}
 
 var reHead = regexp.MustCompile(`^(requires|assume|ensures|aux|invariant|assert|decreases)(\[[^\]]+\])?\s*(.*)$`)
@@ -244,6 +259,33 @@ func parseClause(c *Contract, text, loc string) error {
 			return fmt.Errorf("%s: ints ideal|checked|wrap", loc)
 		}
 		c.IntMode = fields[1]
+	case "implements":
+		if len(fields) != 2 {
+			return fmt.Errorf("%s: implements Iface.Method", loc)
+		}
+		c.Implements = fields[1]
+	case "ghostset":
+		rest := strings.TrimSpace(strings.TrimPrefix(text, "ghostset"))
+		i := strings.Index(rest, ":=")
+		if i < 0 {
+			return fmt.Errorf("%s: ghostset target := value [when cond]", loc)
+		}
+		gs := &GhostSet{Target: strings.TrimSpace(rest[:i])}
+		val := strings.TrimSpace(rest[i+2:])
+		if j := strings.LastIndex(val, " when "); j >= 0 {
+			w, err := mkClause("when", "when", strings.TrimSpace(val[j+6:]), loc)
+			if err != nil {
+				return err
+			}
+			gs.When = w
+			val = strings.TrimSpace(val[:j])
+		}
+		v, err := mkClause("ghostset", gs.Target, val, loc)
+		if err != nil {
+			return err
+		}
+		gs.Value = v
+		c.GhostSets = append(c.GhostSets, gs)
 	case "float":
 		c.FloatBV = true
 	case "safety":
@@ -734,4 +776,63 @@ func funcNameOf(sig string) (string, error) {
 // bodylessToStub turns "func f(a T) R" into a declaration with named result and empty return.
 func bodylessToStub(sig string) string {
 	return sig + " { panic(\"spec\") }"
+}
+
+
+// expandImplements adds the clauses of the implemented interface method's contract to every contract that says
+// `implements Iface.Method` (names of the interface contract's receiver and parameters are mapped positionally to
+// the names used in the implementing contract's header).
+func (pc *PkgContracts) expandImplements() error {
+	for _, c := range pc.Contracts {
+		if c.Implements == "" {
+			continue
+		}
+		ic := pc.Contracts[c.Implements]
+		if ic == nil || !ic.NoBody {
+			return fmt.Errorf("%s:%d: %s implements %s, which has no `iface func` contract in this package", c.File, c.Line, c.Key, c.Implements)
+		}
+		ren := map[string]string{}
+		if ic.RecvName != "" && c.RecvName != "" && ic.RecvName != c.RecvName {
+			ren[ic.RecvName] = c.RecvName
+		}
+		if len(ic.ParamName) != len(c.ParamName) {
+			return fmt.Errorf("%s:%d: %s and %s have different numbers of parameters", c.File, c.Line, c.Key, c.Implements)
+		}
+		for i, n := range ic.ParamName {
+			if n != c.ParamName[i] && n != "_" && c.ParamName[i] != "_" {
+				ren[n] = c.ParamName[i]
+			}
+		}
+		renExpr := func(x ast.Expr) ast.Expr {
+			b := map[string]int{}
+			return substIdents(x, func(id *ast.Ident) ast.Expr {
+				if b[id.Name] > 0 {
+					return nil
+				}
+				if to, ok := ren[id.Name]; ok {
+					return ast.NewIdent(to)
+				}
+				return nil
+			}, b)
+		}
+		derive := func(cl *Clause, kind, prefix string) *Clause {
+			return &Clause{Kind: kind, Label: prefix + cl.Label, Src: cl.Src, Expr: renExpr(cl.Expr), Line: cl.Line}
+		}
+		for _, r := range ic.Requires {
+			c.Requires = append(c.Requires, derive(r, "requires", "iface-"))
+		}
+		for _, en := range ic.Ensures {
+			c.Ensures = append(c.Ensures, derive(en, "ensures", "conform-"))
+		}
+		if ic.ModGiven {
+			for _, m := range ic.Modifies {
+				t := m
+				for from, to := range ren {
+					t = regexp.MustCompile(`\b`+regexp.QuoteMeta(from)+`\b`).ReplaceAllString(t, to)
+				}
+				c.Modifies = append(c.Modifies, t)
+			}
+		}
+	}
+	return nil
 }
